@@ -151,6 +151,35 @@ fn norm_debug<T: std::fmt::Debug>(t: &T) -> String {
     out
 }
 
+/// `norm_debug` with `value_is_used` and comma positions blanked too.
+fn norm_debug_blank<T: std::fmt::Debug>(t: &T) -> String {
+    norm_debug(t)
+        .replace("value_is_used: true", "value_is_used: _")
+        .replace("value_is_used: false", "value_is_used: _")
+        .replace("comma: Some(Position { ... })", "comma: None")
+}
+
+/// For each `[src, expected]`: does `src` parse without errors to a
+/// tree whose blanked Debug form equals `expected`? Returns only the
+/// failing indices.
+fn job_ast_expect(job: &J) -> J {
+    let empty = vec![];
+    let cases = job["cases"].as_array().unwrap_or(&empty);
+    let mut bad = vec![];
+    for (i, case) in cases.iter().enumerate() {
+        let src = case[0].as_str().unwrap_or("");
+        let expected = case[1].as_str().unwrap_or("");
+        let mut id_gen = IdGenerator::default();
+        let (_vfs, vfs_path) = Vfs::singleton(PathBuf::from("/verif_scratch/main.gdn"), src.to_owned());
+        let (items, errors) = parse_toplevel_items(&vfs_path, src, &mut id_gen);
+        let got = norm_debug_blank(&items);
+        if !errors.is_empty() || got != expected {
+            bad.push(json!({"i": i, "errors": errors.iter().map(parse_error_json).collect::<Vec<_>>(), "got": got}));
+        }
+    }
+    json!({"n": cases.len(), "bad": bad})
+}
+
 /// Lex, parse, check (only when there are no parse errors, as the CLI
 /// does) and format `src`.
 fn job_front(job: &J) -> J {
@@ -169,6 +198,9 @@ fn job_front(job: &J) -> J {
     );
     if want("ast") {
         res.insert("ast".into(), J::String(norm_debug(&items)));
+    }
+    if want("ast_blank") {
+        res.insert("ast_blank".into(), J::String(norm_debug_blank(&items)));
     }
     if want("ast_pretty") {
         // What `reftest-ast` prints.
@@ -473,6 +505,121 @@ pub(crate) fn canon_env(env: &Env) -> String {
     s
 }
 
+struct ParenEraser;
+
+impl crate::parser::visitor::MutVisitor for ParenEraser {
+    fn visit_expr(&mut self, expr: &mut crate::parser::ast::Expression) {
+        self.visit_expr_default(expr);
+        if let crate::parser::ast::Expression_::Parentheses(p) = &expr.expr_ {
+            let mut inner = (*p.expr).clone();
+            inner.value_is_used = expr.value_is_used;
+            *expr = inner;
+        }
+    }
+}
+
+fn parse_erased(src: &str, erase: bool) -> (Vec<crate::parser::ast::ToplevelItem>, usize) {
+    use crate::parser::visitor::MutVisitor;
+    let mut id_gen = IdGenerator::default();
+    let (_vfs, vfs_path) = Vfs::singleton(PathBuf::from("/verif_scratch/main.gdn"), src.to_owned());
+    let (mut items, errors) = parse_toplevel_items(&vfs_path, src, &mut id_gen);
+    if erase {
+        let mut e = ParenEraser;
+        for item in items.iter_mut() {
+            e.visit_toplevel_item(item);
+        }
+    }
+    (items, errors.len())
+}
+
+fn shape(e: &crate::parser::ast::Expression) -> String {
+    use crate::parser::ast::Expression_::*;
+    match &e.expr_ {
+        BinaryOperator(l, _, r) => format!("({} {})", shape(l), shape(r)),
+        Variable(s) => s.name.text.clone(),
+        IntLiteral(i) => format!("{i}"),
+        Parentheses(p) => format!("P{}", shape(&p.expr)),
+        _ => "?".to_owned(),
+    }
+}
+
+fn first_expr_shape(items: &[crate::parser::ast::ToplevelItem]) -> String {
+    match items.first() {
+        Some(crate::parser::ast::ToplevelItem::Expr(e)) if items.len() == 1 => shape(&e.0),
+        _ => format!("<{} items>", items.len()),
+    }
+}
+
+/// For each pair of sources: do they parse (without errors) to equal
+/// trees, optionally after erasing `Parentheses` nodes? Only the
+/// indices of pairs that differ are returned, with their shapes.
+fn job_ast_eq(job: &J) -> J {
+    let empty = vec![];
+    let pairs = job["pairs"].as_array().unwrap_or(&empty);
+    let erase = job["erase_parens"].as_bool().unwrap_or(false);
+    let mut bad = vec![];
+    for (i, pair) in pairs.iter().enumerate() {
+        let a = pair[0].as_str().unwrap_or("");
+        let b = pair[1].as_str().unwrap_or("");
+        let (ia, ea) = parse_erased(a, erase);
+        let (ib, eb) = parse_erased(b, erase);
+        if ea != 0 || eb != 0 || ia != ib {
+            bad.push(json!({"i": i, "errors_a": ea, "errors_b": eb, "shape_a": first_expr_shape(&ia), "shape_b": first_expr_shape(&ib)}));
+        }
+    }
+    json!({"n": pairs.len(), "bad": bad})
+}
+
+/// C03 in-process loop: every operator word of length n-1 whose first
+/// operator index is `first`, over operands a, b, c, ...; the chain
+/// must parse to the same tree as its left-nested parenthesisation
+/// (with `Parentheses` nodes erased).
+fn job_chains(job: &J) -> J {
+    let ops: Vec<String> = job["ops"].as_array().map(|a| a.iter().filter_map(|x| x.as_str().map(|s| s.to_owned())).collect()).unwrap_or_default();
+    let n = job["n"].as_u64().unwrap_or(2) as usize;
+    let first = job["first"].as_u64().unwrap_or(0) as usize;
+    let operands = ["a", "b", "c", "d", "e", "f", "g", "h"];
+    let k = ops.len();
+    let mut word = vec![0usize; n - 1];
+    word[0] = first;
+    let mut count = 0u64;
+    let mut bad = vec![];
+    let mut bad_count = 0u64;
+    let mut shapes: std::collections::BTreeMap<String, u64> = Default::default();
+    loop {
+        let mut chain = String::from(operands[0]);
+        let mut nested = String::from(operands[0]);
+        for (i, w) in word.iter().enumerate() {
+            chain.push_str(&format!(" {} {}", ops[*w], operands[i + 1]));
+            nested = format!("({} {} {})", nested, ops[*w], operands[i + 1]);
+        }
+        let (ia, ea) = parse_erased(&chain, true);
+        let (ib, eb) = parse_erased(&nested, true);
+        count += 1;
+        let sh = first_expr_shape(&ia);
+        *shapes.entry(sh.clone()).or_default() += 1;
+        if ea != 0 || eb != 0 || ia != ib {
+            bad_count += 1;
+            if bad.len() < 50 {
+                bad.push(json!({"chain": chain, "nested": nested, "errors_a": ea, "errors_b": eb, "shape": sh, "expected": first_expr_shape(&ib)}));
+            }
+        }
+        // next word (positions 1.. vary; position 0 fixed)
+        let mut i = n - 1;
+        loop {
+            if i <= 1 {
+                return json!({"count": count, "bad_count": bad_count, "bad": bad, "shapes": shapes});
+            }
+            i -= 1;
+            word[i] += 1;
+            if word[i] < k {
+                break;
+            }
+            word[i] = 0;
+        }
+    }
+}
+
 fn handle_job(job: &J) -> J {
     let op = job["op"].as_str().unwrap_or("");
     let r = verif_rt::guarded(|| match op {
@@ -480,6 +627,9 @@ fn handle_job(job: &J) -> J {
         "front" => job_front(job),
         "run" => job_run(job),
         "session" => job_session(job),
+        "ast_eq" => job_ast_eq(job),
+        "ast_expect" => job_ast_expect(job),
+        "chains" => job_chains(job),
         _ => json!({"error": format!("unknown op {op}")}),
     });
     stop_capture();
